@@ -478,6 +478,8 @@ class SeqRun(object):
                     self.step(copy.deepcopy(op))
                     if self.stop:
                         break
+                if not self.stop:
+                    self.cross_views()
                 return self.findings
             for i in range(self.n_ops):
                 op = self.gen.next_op(self.model)
